@@ -224,7 +224,25 @@ def make_case(rng, gen, kind, n, payload, D, label, full_ks=False, structural=Tr
 
 def gen_case(rng, nmax, which=None):
     g = which or rng.choice(["grid", "grid", "grid_dup", "line", "line", "graph", "ultra", "coincident", "wide",
-                             "wide_dup", "kernel", "kernel1"])
+                             "wide_dup", "kernel", "kernel1", "generic", "clustered"])
+    if g == "generic":
+        # tie-free data in 1..50 dimensions: random integer coordinates, L1 (exact)
+        n = rng.randint(2, nmax)
+        dim = rng.choice([1, 2, 3, 5, 10, 20, 50])
+        pts = [[rng.randrange(1 << 20) for _ in range(dim)] for _ in range(n)]
+        return make_case(rng, g, "D", n, None, l1(pts), "generic%dd" % dim)
+    if g == "clustered":
+        # tight clusters far apart (deep trees, ties inside the clusters), L1 in 2 dimensions
+        n = rng.randint(3, nmax)
+        nc = rng.randint(1, max(1, min(6, n // 2)))
+        spread = rng.choice([1 << 10, 1 << 20, 1 << 30])
+        centres = [[rng.randrange(spread), rng.randrange(spread)] for _ in range(nc)]
+        tight = rng.choice([1, 2, 8])
+        pts = []
+        for _ in range(n):
+            c = rng.choice(centres)
+            pts.append([c[0] + rng.randint(0, tight), c[1] + rng.randint(0, tight)])
+        return make_case(rng, g, "D", n, None, l1(pts), "clustered")
     if g in ("grid", "grid_dup"):
         pts, label = gen_grid(rng, nmax if g == "grid" else max(4, nmax - 8))
         if g == "grid_dup":
@@ -706,6 +724,12 @@ def evaluate(ctx, exe, mexe, cases, stats, structural=True):
                     ctx.mismatch(where, "the real VP-tree violates the invariant the search is proved under "
                                         "(vp_inv_b=%s vp_holds_b=%s)" % (g[1], g[2]))
                     continue
+                if len(g) > 4 and g[4] != "1":
+                    # not needed by any theorem (vp_inv_b is): recorded, not a verdict
+                    stats["vp_shape_differs"] = stats.get("vp_shape_differs", 0) + 1
+                    if stats["vp_shape_differs"] == 1:
+                        ctx.note("the real VP-tree is no longer built the way Knn_VpTree_Model.build does (inner child "
+                                 "size s/2 - 1, threshold = distance to the closest outer item); vp_inv_b still holds")
                 for line in srows:
                     parts = [x.strip() for x in line[2:].split("|")]
                     q = int(parts[0])
@@ -909,7 +933,9 @@ def run(ctx):
         rule="evaluation = one row returned by find_neighbors (method, k, query) judged by the extracted is_knn_b; "
              "cases are exact metrics served as matrices (L1 lattices in 1-3 dimensions with copies, integer lines, "
              "shortest-path metrics of random integer-weighted graphs, ultrametrics, coincident sets, wide binary "
-             "ranges, integer feature vectors under the dot-product kernel), every k for N<=12 and 4-6 aimed k above; "
+             "ranges incl. ratios up to 2^600 as hex floats, tie-free integer points in 1..50 dimensions, tight clusters "
+             "far apart, small scattered lattice sets, integer feature vectors under the dot-product kernel), every k "
+             "for N<=12 and 4-6 aimed k above; "
              "non-trivial = N>=3; distinct by hash of (matrix, ks).  Structural probes per (case,k): real VP-tree dump "
              "+ model search on it, cover-tree candidate lists + completeness, cover-tree dump + model query, observed "
              "nth_element calls (counts in histogram.stats).",
